@@ -70,8 +70,10 @@ func (c *sorterClass_[V]) DefaultRanker() RankingFunction[V] {
 // Constructors
 
 func (c *sorterClass_[V]) Make() SorterLike[V] {
+	// A collator is stateful (it tracks its traversal depth), so each sorter gets
+	// its own natural ranker instead of sharing the one behind the class default.
 	return &sorter_[V]{
-		ranker_: c.defaultRanker_,
+		ranker_: Collator[V]().Make().RankValues,
 	}
 }
 
